@@ -584,7 +584,8 @@ class Interp:
                     # nested components)
                     tenv.append(Layer(dict(layer.vars), "forwarded"))
                     break
-                if layer.kind == "between" and loopish(layer):
+                if layer.kind in ("between", "aliaswild") and loopish(layer):
+                    # ("aliaswild": the same bindings, met while default content is rendered through the fill's default alias)
                     # the bindings captured around a fill (inside a loop in the component body) form one
                     # layer, which is then forwarded as "the loop layer": its other names are not predicted
                     fw = {k: (v if k == "forloop" and isinstance(v, dict) else WILD) for k, v in layer.vars.items()}
